@@ -235,7 +235,7 @@ func (self *AofFile) Open() error {
 				err = self.WriteHeader()
 			}
 		} else {
-			err = nil
+			err = self.truncateTornTail()
 		}
 		if err != nil {
 			_ = self.file.Close()
@@ -260,6 +260,39 @@ func (self *AofFile) Open() error {
 			self.rbuf = nil
 			return err
 		}
+	}
+	return nil
+}
+
+// truncateTornTail cuts an existing log and its value file back to the last complete record,
+// so that records appended from now on are not written behind the torn tail a crash left.
+func (self *AofFile) truncateTornTail() error {
+	aofFile := NewAofFile(self.aof, self.filename, os.O_RDONLY, self.bufSize)
+	if err := aofFile.Open(); err != nil {
+		return err
+	}
+	lock, size, dataSize := NewAofLock(), 12, 0
+	for aofFile.ReadLock(lock) == nil && lock.Decode() == nil {
+		if lock.AofFlag&AOF_FLAG_CONTAINS_DATA != 0 {
+			if aofFile.ReadLockData(lock) != nil {
+				break
+			}
+			dataSize += len(lock.data)
+		}
+		size += 64
+	}
+	_ = aofFile.Close()
+	if size < self.size {
+		if err := self.file.Truncate(int64(size)); err != nil {
+			return err
+		}
+		self.size = size
+	}
+	if dataSize < self.dataSize {
+		if err := self.dataFile.Truncate(int64(dataSize)); err != nil {
+			return err
+		}
+		self.dataSize = dataSize
 	}
 	return nil
 }
